@@ -7,8 +7,9 @@
      thread <tid> <cmd> ; <cmd> ; ...        (same syntax as harness/w conc_drv case files)
      tids <t> <t> ...                        (the schedule: thread id chosen at each step)
      RUN                                     -> prints the model trace of the run
-     MON <prop>                              -> (after `obs` lines) evaluates the extracted monitor of <prop>
-     obs <line of a real trace>              (lines as printed by conc_drv)
+     obs <line of a trace>                   (lines as printed by conc_drv or by RUN; ghost lines are ignored)
+     MON                                     -> evaluates the extracted monitors C11..C14 on the `obs` lines of
+                                                this job; prints "JOB <id>" and "MON C11=<0|1> C12=.. C13=.. C14=.." 
    Output per job:  "JOB <id>", then one line per event in the format of conc_drv
      "<step> <tid> <kind> <obj> <a> <b> <text>"   (objects by structural name: top, S<bm>, L<bm>.<a>, DL, CH<c>, PQ<p>, CV<p>;
      ghost events have a kind starting with '#'), then "END ...".
@@ -145,6 +146,9 @@ let () =
   let scripts : (int, cmd list) Hashtbl.t = Hashtbl.create 8 in
   let tids = ref [] in
   let jobid = ref "" in
+  let obs : (nat * wevent) list ref = ref [] in
+  let aborted = ref false in
+  let curcmd : (int, cmd) Hashtbl.t = Hashtbl.create 8 in
   (try
      while true do
        let line = input_line stdin in
@@ -156,7 +160,48 @@ let () =
            | Some i -> String.sub line 0 i, String.sub line (i + 1) (String.length line - i - 1)
            | None -> line, "" in
          match key with
-         | "JOB" -> jobid := String.trim rest; Hashtbl.reset scripts; tids := []
+         | "JOB" -> jobid := String.trim rest; Hashtbl.reset scripts; tids := []; obs := []; aborted := false;
+           Hashtbl.reset curcmd
+         | "obs" ->
+           (match split rest with
+            | _step :: t :: kind :: _obj :: _a :: _b :: text ->
+              let ti = int_of_string t in
+              let tn = nat_of_int ti in
+              let push e = obs := (tn, e) :: !obs in
+              let zz x = z_of_string x in
+              (match kind, text with
+               | "C", _ -> let c = parse_cmd (String.concat " " text) in Hashtbl.replace curcmd ti c; push (ECmd c)
+               | "R", [v] ->
+                 let cur = (try Some (Hashtbl.find curcmd ti) with Not_found -> None) in
+                 Hashtbl.remove curcmd ti;
+                 let rv = (match v, cur with
+                     | "-", _ -> RUnit | "bad", _ -> RBad | "shared", _ -> RShared | "none", _ -> RNoneV
+                     | x, Some CRecv -> RVal (zz x)
+                     | "1", _ -> RBool true | "0", _ -> RBool false
+                     | x, _ -> RVal (zz x)) in
+                 push (ERet rv)
+               | "NOTIFY", _ -> push ECallback
+               | "H", [w; d] -> push (EHandler (HPlain (zz w), d = "1"))
+               | "F", [c; m] -> push (EFwd (zz c, zz m))
+               | "FR", [p; m] -> push (EFwdRecv (zz p, zz m))
+               | "T", [p; v] -> push (ETerm (zz p, v <> "none"))
+               | "J", _ -> push EJoin
+               | "E", _ -> push EExit
+               | "S", _ -> push EStart
+               | "X", _ -> aborted := true
+               | "A", _ -> push (EAtomic (WTop, Swap, Z0, Z0, Z0))
+               | "L", _ -> push (ELock MDL)
+               | "U", _ -> push (EUnlock MDL)
+               | "CW", _ -> push (ECvWait Z0)
+               | "CR", _ -> push (ECvWake Z0)
+               | "N", _ -> push (ENotifyCv (Z0, Z0))
+               | _, _ -> ())
+            | _ -> ())
+         | "MON" ->
+           let tr = List.rev !obs in
+           Printf.printf "JOB %s\nMON C11=%s C12=%s C13=%s C14=%s\n" !jobid
+             (b01 (c11_ok tr !aborted)) (b01 (c12_ok tr !aborted)) (b01 (c13_ok tr !aborted)) (b01 (c14_ok tr !aborted));
+           flush stdout
          | "thread" ->
            let rest = String.trim rest in
            let t, sc =
